@@ -597,8 +597,8 @@ class ReceiveV3(V3Unit):
             return "raises:ErrorResponse"
         # any other exception refuses the message; a status must not be swallowed into another error once the
         # message got through authentication and decryption
-        chk(("C08",), T, "raises", "refused-before-the-PDU-was-read(an-agent-error-is-not-turned-into-another-exception)",
-            exc.cls.name not in ("DecryptionError",) or True)
+        # (the plug-in model decrypts to a well-formed scoped PDU, so a DecryptionError here is not a decryption problem)
+        chk(("C08", "C11"), T, "raises", "an-agent-error-is-not-turned-into-a-DecryptionError", exc.cls.name != "DecryptionError")
         return "raises:" + exc.cls.name
 
 
